@@ -659,7 +659,17 @@ def arr_getattr(I, a, name):
         def item(I, *idx):
             if a.shape == ():
                 return a.fn(())
-            raise Unsupported('item() of non-0d array')
+            if idx:
+                raise Unsupported('item(index)')
+            # one element, whatever the rank: that element; otherwise numpy raises
+            Bm = _B()
+            size = 1
+            for d in a.shape:
+                size = Bm.num_binop(I, '*', size, d)
+            one = Bm.equal(I, size, 1)
+            if one is True or (one is not False and I.truth(one)):
+                return a.fn(tuple(0 for _ in a.shape))
+            I.throw('ValueError', 'can only convert an array of size 1 to a Python scalar')
         return F(name, item)
     if name == 'transpose':
         return F(name, lambda I, *x: transpose(I, a))
